@@ -50,6 +50,7 @@ def reader_oracle(fn):
     return f
 
 
+MODEL_ORACLE = None     # C18: oracles.alloc_vs_model(case, impl, model) -> message or None
 LEAN_A_ORACLE = False   # set per property by the check script: C01 C02 C04 C05 C17
 EXACT_KINDS = None  # case kinds that have a model observation to compare with (None = all)
 KEEP_MSG = False   # only C17 compares the wording of error messages
@@ -157,6 +158,10 @@ def _work(rng):
             ndiff += 1
             if len(diffs) < 10:
                 diffs.append((c, o, m))
+        if MODEL_ORACLE is not None:
+            msg = MODEL_ORACLE(c, o, m)
+            if msg and len(fails) < 40:
+                fails.append((c, msg, o))
         if oracle_fn is not None:
             v = oracle_fn(c, o, s)
             if v is not None:
